@@ -22,7 +22,7 @@
    first-character set (FcPrefix).  *)
 From Verif Require Import Base.Prelude Model.CharClass Base.Utf8 Model.Tree Model.Spec Model.Analysis Model.Analysis2
      Proofs.AnalysisReach Proofs.AnalysisProofs Proofs.AnalysisPrefix Proofs.AnalysisFacts
-     Proofs.Analysis2Cls Proofs.Analysis2Ffcc Proofs.Analysis2Fixed Proofs.Analysis2Lal Proofs.Analysis2Prefixes Proofs.Analysis2Chain
+     Proofs.Analysis2Cls Proofs.Analysis2Ffcc Proofs.Analysis2Fixed Proofs.Analysis2Lal Proofs.Analysis2Prefixes Proofs.Analysis2Chain Proofs.Analysis2Fc
      Proofs.Utf8Proofs.
 
 (* ---- MinRequiredLength / MaxPossibleLength --------------------------------------------------- *)
@@ -435,6 +435,28 @@ Proof.
 Qed.
 Print Assumptions C04_landmark_chain_sound.
 
+(* getFirstCharsPrefix (prefix.go:18, the legacy Code.FcPrefix used by findFirstCharDefault for right-to-left
+   patterns and the left-to-right modes without an optimised finder): when it returns (PrefixSet, CaseInsensitive),
+   every successful attempt consumes at least one character (a non-nil FcPrefix means the pattern is not nullable)
+   and the first one -- at p left-to-right (d = false), at p-1 right-to-left -- is in PrefixSet; on a real tree
+   (no_ci_lit) CaseInsensitive is false, so the run-time loop does not lower-case.  nil (None) makes no claim. *)
+Theorem C04_first_chars_prefix_sound :
+  forall e (cat_in : Z -> Z -> bool) (to_lower : Z -> Z) (sets : list cls) (d : bool) fuel root p s' C ci,
+    forallb cls_good_b sets = true ->
+    (forall id x, set_in e id x = char_in cat_in (set_cls sets id) x) ->
+    (forall i, 0 <= char_at e i <= 1114111) ->
+    shape_ok d root = true -> no_ci_lit root = true -> lits_ok root = true -> 0 <= p <= tlen e ->
+    first_chars_prefix cat_in to_lower sets root = Ok (Some (C, ci)) ->
+    attempt e fuel root p = Ok (Some s') ->
+    ci = false /\
+    (if d then 0 < p /\ pos s' < p else p < tlen e /\ p < pos s') /\
+    char_in cat_in C (if d then char_at e (p - 1) else char_at e p) = true.
+Proof.
+  intros e cat_in to_lower sets d fuel root p s' C ci Hg Ha Hv.
+  exact (a2_first_chars_prefix_sound cat_in sets (sets_good_b cat_in sets Hg) e Ha Hv to_lower d fuel root p s' C ci).
+Qed.
+Print Assumptions C04_first_chars_prefix_sound.
+
 (* ---- non-vacuity ---- *)
 Definition ex2_sets : list cls := [ranges_cls [(98, 99)]].                       (* [bc] *)
 Definition ex2_cat : Z -> Z -> bool := fun _ _ => false.
@@ -515,4 +537,21 @@ Example C04_witness_landmark_chain :
     = Some (0, [[[97]]; [[100]]]) /\
   attempt (ex2_env [98; 97; 99; 100; 98]) 10 ex2_chain 0 = Ok (Some {| pos := 5; caps := [(0, [(0, 5)])] |}) /\
   attempt (ex2_env [98; 100; 99; 97; 98]) 10 ex2_chain 0 = Ok None.
+Proof. vm_compute. repeat split; reflexivity. Qed.
+
+(* right-to-left [^a]b (evaluation order: b first): the legacy first characters are {b}, read at p-1;
+   and the left-to-right Notone of an astral character keeps its upper complement range (defect 55190b7) *)
+Definition ex2_fc_rtl : node := NCapture 64 0 (-1) (NConcat 64 [NChar COne 64 98; NChar CNotone 64 97]).
+Example C04_witness_first_chars_prefix :
+  shape_ok true ex2_fc_rtl = true /\ no_ci_lit ex2_fc_rtl = true /\ lits_ok ex2_fc_rtl = true /\
+  match first_chars_prefix ex2_cat (fun r => r) [] ex2_fc_rtl with
+  | Ok (Some (c, ci)) => (ranges c, neg c, ci) = ([(98, 98)], false, false)
+  | _ => False
+  end /\
+  attempt (ex2_env [120; 98]) 10 ex2_fc_rtl 2 = Ok (Some {| pos := 0; caps := [(0, [(0, 2)])] |}) /\
+  attempt (ex2_env [98; 120]) 10 ex2_fc_rtl 2 = Ok None /\
+  match first_chars_prefix ex2_cat (fun r => r) [] (NCapture 0 0 (-1) (NChar CNotone 0 65536)) with
+  | Ok (Some (c, _)) => (ranges c, neg c) = ([(65536, 65536)], true)
+  | _ => False
+  end.
 Proof. vm_compute. repeat split; reflexivity. Qed.
